@@ -2,7 +2,7 @@
     the Proofs_C13*.v files, each followed by Print Assumptions.  Tags (* @kernel kind *) are read by the harness. *)
 From Coq Require Import ZArith List Bool.
 From AwkV Require Import Base.
-From AwkKernels Require Import Kernels KLemmas Proofs_C13 Proofs_C13b Proofs_C13c Proofs_C13e Proofs_C13f.
+From AwkKernels Require Import Kernels KLemmas Proofs_C13 Proofs_C13b Proofs_C13c Proofs_C13e Proofs_C13f Proofs_C13g.
 Import ListNotations.
 Open Scope Z_scope.
 
@@ -1490,3 +1490,102 @@ Theorem C13_sort_isort_stable_spec :
   filter p (isort lt l) = filter p l.
 Proof. exact sort_isort_stable_spec. Qed.
 Print Assumptions C13_sort_isort_stable_spec.
+
+(* @awkward_sort k_spec *)
+Theorem C13_sort_spec :
+  forall toptr fromptr asc stable,
+  zlen fromptr <= zlen toptr ->
+  sort toptr fromptr (zlen fromptr) [0; zlen fromptr] 2 (zlen fromptr) asc stable
+  = KOk (isort (sort_lt asc) fromptr ++ skipn (length fromptr) toptr).
+Proof. exact sort_spec. Qed.
+Print Assumptions C13_sort_spec.
+
+(* @awkward_sort k_safe *)
+Theorem C13_sort_safe :
+  forall toptr fromptr asc stable,
+  zlen fromptr <= zlen toptr ->
+  sort toptr fromptr (zlen fromptr) [0; zlen fromptr] 2 (zlen fromptr) asc stable <> KOob.
+Proof. exact sort_safe. Qed.
+Print Assumptions C13_sort_safe.
+
+(* @awkward_argsort k_spec *)
+Theorem C13_argsort_spec :
+  forall toptr fromptr asc stable,
+  zlen fromptr <= zlen toptr ->
+  argsort toptr fromptr (zlen fromptr) [0; zlen fromptr] 2 asc stable
+  = KOk (stable_argsort (sort_lt asc) fromptr ++ skipn (length fromptr) toptr).
+Proof. exact argsort_spec. Qed.
+Print Assumptions C13_argsort_spec.
+
+(* @awkward_argsort k_safe *)
+Theorem C13_argsort_safe :
+  forall toptr fromptr asc stable,
+  zlen fromptr <= zlen toptr ->
+  argsort toptr fromptr (zlen fromptr) [0; zlen fromptr] 2 asc stable <> KOob.
+Proof. exact argsort_safe. Qed.
+Print Assumptions C13_argsort_safe.
+
+(* @awkward_ListOffsetArray_local_preparenext_64 k_spec *)
+Theorem C13_ListOffsetArray_local_preparenext_spec :
+  forall tocarry fromindex,
+  zlen fromindex <= zlen tocarry ->
+  ListOffsetArray_local_preparenext tocarry fromindex (zlen fromindex)
+  = KOk (stable_argsort Z.ltb fromindex ++ skipn (length fromindex) tocarry).
+Proof. exact ListOffsetArray_local_preparenext_spec. Qed.
+Print Assumptions C13_ListOffsetArray_local_preparenext_spec.
+
+(* @awkward_ListOffsetArray_local_preparenext_64 k_safe *)
+Theorem C13_ListOffsetArray_local_preparenext_safe :
+  forall tocarry fromindex,
+  zlen fromindex <= zlen tocarry ->
+  ListOffsetArray_local_preparenext tocarry fromindex (zlen fromindex) <> KOob.
+Proof. exact ListOffsetArray_local_preparenext_safe. Qed.
+Print Assumptions C13_ListOffsetArray_local_preparenext_safe.
+
+(* @awkward_ListArray_getitem_jagged_descend k_safe *)
+Theorem C13_ListArray_getitem_jagged_descend_safe :
+  forall tC tooffsets slicestarts slicestops n fromstarts fromstops,
+  0 <= n -> n <= zlen slicestarts -> n <= zlen slicestops -> n <= zlen fromstarts -> n <= zlen fromstops ->
+  n < zlen tooffsets ->
+  ListArray_getitem_jagged_descend tC tooffsets slicestarts slicestops n fromstarts fromstops <> XOob.
+Proof. exact ListArray_getitem_jagged_descend_safe. Qed.
+Print Assumptions C13_ListArray_getitem_jagged_descend_safe.
+
+(* @awkward_ListArray_getitem_jagged_numvalid k_safe *)
+Theorem C13_ListArray_getitem_jagged_numvalid_safe :
+  forall numvalid slicestarts slicestops n missing missinglength,
+  n <= zlen slicestarts -> n <= zlen slicestops -> 1 <= zlen numvalid -> missinglength <= zlen missing ->
+  (forall i, 0 <= i < n -> 0 <= at_ slicestarts i) ->
+  ListArray_getitem_jagged_numvalid numvalid slicestarts slicestops n missing missinglength <> XOob.
+Proof. exact ListArray_getitem_jagged_numvalid_safe. Qed.
+Print Assumptions C13_ListArray_getitem_jagged_numvalid_safe.
+
+(* @awkward_ListArray_getitem_jagged_carrylen k_spec *)
+Theorem C13_ListArray_getitem_jagged_carrylen_spec :
+  forall x slicestarts slicestops,
+  zlen slicestarts = zlen slicestops ->
+  ListArray_getitem_jagged_carrylen [x] slicestarts slicestops (zlen slicestarts)
+  = KOk [sumZ (map (fun p => snd p - fst p) (zip slicestarts slicestops))].
+Proof. exact ListArray_getitem_jagged_carrylen_spec. Qed.
+Print Assumptions C13_ListArray_getitem_jagged_carrylen_spec.
+
+(* @awkward_carry_SliceJagged64_offsets k_safe *)
+Theorem C13_carry_SliceJagged64_offsets_safe :
+  forall tooffsets fromoffsets fromcarry n,
+  0 <= n <= zlen fromcarry -> n < zlen tooffsets ->
+  (forall i, 0 <= i < n -> 0 <= at_ fromcarry i /\ at_ fromcarry i + 1 < zlen fromoffsets) ->
+  carry_SliceJagged64_offsets tooffsets fromoffsets fromcarry n <> KOob.
+Proof. exact carry_SliceJagged64_offsets_safe. Qed.
+Print Assumptions C13_carry_SliceJagged64_offsets_safe.
+
+(* @awkward_UnionArray_simplify_one k_spec *)
+Theorem C13_UnionArray_simplify_one_spec :
+  forall totags toindex fromtags fromindex towhich fromwhich n base,
+  0 <= n -> n <= zlen fromtags -> n <= zlen fromindex -> n <= zlen totags -> n <= zlen toindex ->
+  exists tg ix, UnionArray_simplify_one TIdeal totags toindex fromtags fromindex towhich fromwhich n base = KOk (tg, ix) /\
+    zlen tg = zlen totags /\ zlen ix = zlen toindex /\
+    forall q, 0 <= q ->
+      at_ tg q = (if (q <? n) && (at_ fromtags q =? fromwhich) then towhich else at_ totags q) /\
+      at_ ix q = (if (q <? n) && (at_ fromtags q =? fromwhich) then at_ fromindex q + base else at_ toindex q).
+Proof. exact UnionArray_simplify_one_spec. Qed.
+Print Assumptions C13_UnionArray_simplify_one_spec.
